@@ -47,7 +47,7 @@ const (
 	batchSize    = 1 << 14
 	singleLimit  = 5000 // ms
 	maxUnrepro   = 8
-	workerGoProc = "2"
+	workerGoProc = "3" // decoder, hang monitor (blocks its P), garbage collector
 )
 
 func stallLimit() time.Duration { return time.Duration(envInt("C01_STALL_S", 20)) * time.Second }
@@ -72,7 +72,7 @@ type batch struct {
 // worker.go); a batch with a candidate that turns out not to hang on its own is run again with the
 // fast path off (0), when only the parent's watchdog remains.
 func tripLevels() [2]int {
-	return [2]int{envInt("C01_TRIP_US", 300), 0}
+	return [2]int{envInt("C01_TRIP_US", 200), 0}
 }
 
 func (b batch) escalated() batch {
